@@ -156,10 +156,10 @@ def make_objects(M, desc, param_override=None, node_names=None):
         n: callform((node_cls if (node_cls is M.Node or FORMS["rng"].random() < 0.5) else M.Node), ORDER["named"],
                     {"name": (node_names or {}).get(n, n)}) for n in desc["nodes"]
     }
-    for n, b_ in (desc.get("node_off") or {}).items():  # user-defined node kind with its own node rule
+    for n in sorted(set(desc.get("node_off") or {}) | set(desc.get("node_block") or {})):  # user-defined node kind with its own node rules
         from vf import userkinds as UK
 
-        nodes[n] = UK.OffRampNode((node_names or {}).get(n, n), b_)
+        nodes[n] = UK.OffRampNode((node_names or {}).get(n, n), (desc.get("node_off") or {}).get(n, 0.0), (desc.get("node_block") or {}).get(n))
     links = {}
     for l in desc["links"]:
         g = lambda a, l=l: po.get((l["id"], a), l[a])  # noqa: E731
